@@ -62,3 +62,9 @@ def snapshot_shapes(shapes_list):
         result.append({"name": a_shape.name, "cls": a_shape.class_uri, "n": a_shape.n_instances,
                        "statements": statements})
     return result
+
+
+def snapshot_triple(a_triple):
+    """(subject kind, subject, predicate, object kind or datatype, object) as strings"""
+    subj, prop, obj = a_triple
+    return [str(getattr(subj, "elem_type", "?")), str(subj), str(prop), str(getattr(obj, "elem_type", "?")), str(obj)]
